@@ -9,7 +9,7 @@ from mirsmt.interp import Inconclusive
 
 ORACLE_OF = {
     'C04': ['terminates', 'every-scenario-runs', 'nothing-else-runs', 'every-started-attempt-finishes'],
-    'C06': ['in-flight<=limit'],
+    'C06': ['in-flight<=limit', 'free-slots-refilled-after-each-completion'],
     'C07': ['serial-dispatched-alone-in-its-batch', 'serial-isolation'],
     'C08': ['fail-fast-stops-dispatching', 'fail-fast-without-failure-runs-everything', 'every-started-attempt-finishes', 'brackets'],
     'C03': ['brackets'],
@@ -35,6 +35,11 @@ def worlds(tier, focus):
             # serial + concurrent in the same batch
             W.append(('serial+2conc d=%s limit=%s' % (d, limit),
                       World([Scen('s', 'S', 0, None, budget=1, durs=(d[0], 0)), Scen('a', 'C', 0, None, durs=(d[1],)), Scen('b', 'C', 1, 0, durs=(d[2],))], limit)))
+    # a step-less (draft) scenario next to ordinary ones, at top level and inside a rule: counted like any other
+    for limit in (1, 2):
+        W.append(('step-less-scenario limit=%s' % limit,
+                  World([Scen('a', 'C', 0, None, durs=(0,), nsteps=0, fails=(False,)), Scen('b', 'C', 0, None, durs=(1,)),
+                         Scen('c', 'C', 0, 0, durs=(0,), nsteps=0, fails=(False,)), Scen('e', 'C', 0, 0, durs=(0,))], limit)))
     # one rule holding a serial AND a concurrent scenario: the rule is still ONE bracket
     for limit in (2, None):
         W.append(('rule-with-serial-and-concurrent limit=%s' % limit,
@@ -56,6 +61,12 @@ def worlds(tier, focus):
                 W.append(('failfast d=%s limit=%s' % (d, limit),
                           World([Scen('a', 'C', 0, 0, budget=1, durs=(d[0], 0)), Scen('b', 'C', 0, None, durs=(d[1],)), Scen('c', 'C', 1, 1, durs=(d[2],)),
                                  Scen('e', 'C', 1, None, durs=(0,))], limit, fail_fast=True)))
+    if focus == 'C06':
+        # completion order differs from start order: a long attempt at the head, short ones behind it, more queued
+        for limit, dl in (((2, 4), (3, 5)) if tier != 'thorough' else ((2, 4), (2, 7), (3, 5), (3, 8))):
+            W.append(('long-head limit=%d long=%d' % (limit, dl),
+                      World([Scen('z', 'C', 0, None, durs=(dl,), fails=(False,))] + [Scen('x%d' % i, 'C', 0, None, durs=(0,), fails=(False,)) for i in range(limit - 1)]
+                            + [Scen('y', 'C', 1, None, durs=(0,), fails=(False,)), Scen('w', 'C', 1, None, durs=(1,), fails=(False,))], limit)))
     if focus in ('C04', 'C07', 'C03', 'C05'):
         # lazily delivered features (parser stream Pending `late` polls before an item)
         for late in ((1, 2) if tier != 'thorough' else (1, 2, 3, 5)):
@@ -104,6 +115,13 @@ def worlds(tier, focus):
         W.append(('failfast-unlimited+serial d=%s' % (d,),
                   World([Scen('a', 'C', 0, None, durs=(d[0],), fails=(True,)), Scen('b', 'C', 0, None, durs=(d[1],), fails=(False,)),
                          Scen('s', 'S', 1, None, durs=(0,), fails=(False,)), Scen('t', 'S', 1, None, durs=(0,), fails=(False,))], None, fail_fast=True)))
+    # fail-fast cuts the run short while TWO rules of the same feature are open (the serial scenario of the second rule
+    # runs first, then the first rule's first scenario fails)
+    for d in ([(0, 0), (0, 2)] if tier != 'thorough' else [(0, 0), (0, 2), (2, 0), (1, 1)]):
+        for limit in (1, 2):
+            W.append(('failfast-two-open-rules d=%s limit=%d' % (d, limit),
+                      World([Scen('a', 'C', 0, 0, durs=(d[0],), fails=(True,)), Scen('c', 'C', 0, 0, durs=(0,), fails=(False,)), Scen('g', 'C', 0, 0, durs=(0,), fails=(False,)),
+                             Scen('s', 'S', 0, 1, durs=(d[1],), fails=(False,)), Scen('e', 'C', 0, 1, durs=(0,), fails=(False,))], limit, fail_fast=True)))
     W.append(('failfast-unlimited+late-feature',
               World([Scen('a', 'C', 0, None, durs=(0,), fails=(True,)), Scen('b', 'C', 1, None, durs=(0,), fails=(False,))], None, fail_fast=True, parser=[(0, 0), (3, 1)])))
     for d in ([(0, 0, 0), (1, 0, 0)] if tier != 'thorough' else durs3):
@@ -138,6 +156,11 @@ def run(chk, prop, selected=None):
                 if kind == 'panic':
                     o.verdict = 'violated'
                     o.model = {'world': wname}
+                    if not getattr(o, 'worlds', None):
+                        o.worlds = []
+                    if len(o.worlds) < 4 and wname not in [x[0] for x in o.worlds]:
+                        # a panic on the path: replayed natively with every outcome left to the script's defaults
+                        o.worlds.append((wname, w, {'events': [], 'done': False, 'spin': None, 'polls': 0, 'hook': 'original'}))
                 elif o.verdict != 'violated':
                     o.verdict = 'inconclusive'
                 o.detail = '%s: %s (world %s)' % (kind, res, wname)
